@@ -152,8 +152,9 @@ func runC02(c *Ctx) {
 	func() {
 		checkWiring(c, p, rule, sq, "Query", map[string]string{"ID": "Query.QueryID", "Body": "Query.Body", "Secret": "Query.Secret", "Parameters": "Query.Parameters", "Compression": "Client.compression"})
 		checkWiring(c, p, rule, sq, "ClientInfo", map[string]string{"ProtocolVersion": "Client.protocolVersion", "InitialUser": "Query.InitialUser", "InitialQueryID": "Query.QueryID", "QuotaKey": "Query.QuotaKey"})
-		// Settings <- querySettings(q)
-		okSet := false
+		// Settings <- the settings builder: whatever library function produces the value stored there
+		var qs *ssa.Function
+		var qsCall *ssa.Call
 		for _, b := range sq.Blocks {
 			for _, in := range b.Instrs {
 				s, ok := in.(*ssa.Store)
@@ -164,18 +165,34 @@ func runC02(c *Ctx) {
 				if !ok || !core.IsNamed(fa.X.Type(), core.PkgProto, "Query") || fieldNameOnly(fa.X.Type(), fa.Field) != "Settings" {
 					continue
 				}
-				if _, ok := core.CallTo(s.Val, isClientMethod("querySettings")); ok {
-					okSet = true
+				if cl, ok := s.Val.(*ssa.Call); ok {
+					if f := core.StaticFn(cl); f != nil && f.Blocks != nil && pkgOf(f) != nil && pkgOf(f).Path() == core.PkgCh {
+						qs, qsCall = f, cl
+					}
 				}
 			}
 		}
-		if okSet {
-			c.R.Ok(rule, core.FuncName(sq)+"/Query.Settings", cfg, p.Pos(sq.Pos()), "Settings <- querySettings(q)")
+		if qs != nil {
+			c.R.Ok(rule, core.FuncName(sq)+"/Query.Settings", cfg, p.Pos(sq.Pos()), "Settings <- "+qs.Name()+"(...)")
 		} else {
-			c.R.Bad(rule, core.FuncName(sq)+"/Query.Settings", cfg, p.Pos(sq.Pos()), "the packet's settings are not produced by querySettings")
+			c.R.Bad(rule, core.FuncName(sq)+"/Query.Settings", cfg, p.Pos(sq.Pos()), "the packet's settings are not produced by a settings builder of package ch")
 		}
-		qs := p.Method(core.PkgCh, "Client", "querySettings")
-		if c.must(p, "(*ch.Client).querySettings", qs != nil) {
+		// which of its parameters carry the connection-level / query-level list (by what the call site passes)
+		paramSrc := map[ssa.Value]string{}
+		if qs != nil {
+			for i, a := range qsCall.Call.Args {
+				if o := core.FieldOrigin(a, 0); (o == "Client.settings" || o == "Query.Settings") && i < len(qs.Params) {
+					paramSrc[qs.Params[i]] = o
+				}
+			}
+		}
+		srcOf := func(v ssa.Value) string {
+			if o := core.FieldOrigin(v, 0); o == "Client.settings" || o == "Query.Settings" {
+				return o
+			}
+			return paramSrc[v]
+		}
+		if qs != nil {
 			// the conversion may live in querySettings itself or in a package helper it calls
 			family := []*ssa.Function{qs}
 			for _, f := range core.StaticReachList(qs) {
@@ -203,7 +220,7 @@ func runC02(c *Ctx) {
 							continue
 						}
 						for _, op := range in.Operands(nil) {
-							if *op != nil && core.FieldOrigin(*op, 0) == origin {
+							if *op != nil && srcOf(*op) == origin {
 								if _, isLoad := in.(*ssa.UnOp); isLoad && core.FieldOrigin(in.(ssa.Value), 0) == origin {
 									continue // the load itself
 								}
